@@ -1,5 +1,233 @@
-(* P_C05.v — property C05 (stub while the harness is brought up). *)
-From Koreo Require Import Json Payload Validate Validate_proofs.
-Theorem C05_stub : forall o, ounion O_match o = o.
-Proof. exact ounion_match_l. Qed.
-Print Assumptions C05_stub.
+(* P_C05.v — property C05: drift in any target-specified field triggers the
+   configured correction.  Statements only; proofs are in
+   proofs/Validate_proofs.v and proofs/Fixpoint_proofs.v.
+   Model: model/Validate.v (validate.py; the comparison/dispatch tail of
+   reconcile_krm_resource), model/Payload.v (payload helpers, RFC 7386).
+
+   Reading of the verdicts: [vmatch t l la s] is the SET of non-matching
+   outcomes validate_match can produce (the iteration order of a Python set of
+   keys is not modelled); [O_match] = `match=True` whatever the order,
+   [O_false] = `match=False` whatever the order (no exception possible). *)
+From Koreo Require Import Json Payload Validate Validate_proofs Fixpoint_proofs.
+Local Open Scope list_scope.
+
+Section Comparator.
+  (* "If the live object differs from the Target Resource Specification in any
+     field the target specifies - a changed or retyped leaf, a removed key, a
+     list of different length or content, a missing or extra member of a
+     set-directed list -" ... the comparison reports a mismatch.
+     [deviates t s p l l'] (Validate.v) is the inductive union of exactly those
+     kinds at a target-specified path p (leaf replaced by a value that is not
+     the same leaf — incl. bool<->int, null, container —; container replaced
+     by another kind; key removed; ordered list length changed; list element
+     deviates; set-directed list gains/loses a member; element of a
+     compare-as-map list deviates / is lost), l being a live object that
+     matched.  [wf t]: the target's maps have unique keys (Python dicts). *)
+  Theorem C05_drift_detected : forall t s p l l' la,
+    wf t = true -> vmatch t l la s = O_match -> deviates t s p l l' ->
+    vmatch t l' la s = O_false.
+  Proof. exact drift_detected_thm. Qed.
+
+  (* the same for every amount of fuel of the underlying recursion *)
+  Theorem C05_drift_detected_fuel : forall t s p l l',
+    deviates t s p l l' ->
+    forall n la, wf t = true ->
+      vmatch_f n t l la s = O_match -> vmatch_f n t l' la s = O_false.
+  Proof. exact drift_detected_f. Qed.
+
+  (* the quantifier: deviations live at paths that never go through a
+     directive key, an ownerReferences key or a key compared against
+     last-applied ("which the comparison deliberately ignores") *)
+  Theorem C05_deviation_at_specified_path : forall t s p l l',
+    deviates t s p l l' -> specified_path t s p.
+  Proof. exact deviates_specified. Qed.
+End Comparator.
+
+(* The two side conditions built into [deviates] are real defects of the
+   unchanged code (known findings, see notes/C05.md):
+
+   (a) membership in a set-directed list is Python-set membership, which
+       conflates true/1/1.0: retyping a member between bool and int is a
+       retyped leaf at a specified path, and is NOT detected; *)
+Theorem C05_set_member_retype_refuted :
+  exists t l l',
+    vmatch t l None false = O_match /\
+    (* l' = l with the member 1 of the set-directed list "s" retyped to true *)
+    l = JMap [("s", JList [JInt 1; JStr "a"])] /\
+    l' = JMap [("s", JList [JBool true; JStr "a"])] /\
+    leaf_same (JInt 1) (JBool true) = false /\
+    vmatch t l' None false = O_match.
+Proof.
+  exists wa_target, wa_live, wa_live'.
+  destruct set_boolint_not_detected as [A [B [C _]]]. repeat split; auto.
+Qed.
+
+(* (b) under x-koreo-compare-as-map a live value that is no longer a list of
+       maps makes validate_match RAISE (AttributeError / TypeError) instead
+       of reporting drift; reconcile_krm_resource then raises and no
+       correction is made. *)
+Theorem C05_as_map_retype_refuted :
+  exists t l,
+    vmatch t l None false = O_match /\
+    vmatch t (JMap [("m", JStr "str")]) None false = O_raise VAttributeError /\
+    vmatch t (JMap [("m", JList [JInt 1])]) None false = O_raise VAttributeError /\
+    vmatch t (JMap [("m", JInt 5)]) None false = O_raise VTypeError /\
+    vmatch t (JMap [("m", JMap [("name", JStr "a")])]) None false = O_raise VAttributeError.
+Proof. exists wb_target, wb_live. exact as_map_retype_raises. Qed.
+
+Section Dispatch.
+  (* "... a managing ResourceFunction performs exactly the action its update
+     policy prescribes: one patch carrying the full target (patch), one delete
+     (recreate), or nothing (never), and reports Retry for the first two."
+     [dispatch] is lines 331-376 of reconcile_krm_resource on the comparator's
+     verdict; [patch_branch] is the UpdatePatch arm. *)
+  Theorem C05_dispatch : forall cfg t live rr,
+    dispatch cfg t live rr (Done false) =
+      match tc_update cfg with
+      | PNever => (TLive live, [])
+      | PRecreate d => (TRetry d "spec.update.recreate", [CDelete])
+      | PPatch d => patch_branch cfg t live rr d
+      end.
+  Proof. exact dispatch_mismatch. Qed.
+
+  (* the patch carries the prepared full target: [recorded p] is the
+     directive-free target, [body p] the same with the last-applied annotation *)
+  Theorem C05_patch_payload : forall cfg t live rr d,
+    tc_should_own cfg && negb (reffed_truthy rr) = false ->
+    patch_branch cfg t live rr d =
+      match prepare_for_api t with
+      | Done p => (TRetry d "spec.update.patch", [CPatch p])
+      | Raised e => (TRaised e, [])
+      end.
+  Proof. exact patch_branch_plain. Qed.
+
+  (* ... with the parent's owner reference added when ownership applies and
+     the live object lacks it *)
+  Theorem C05_patch_payload_owner : forall cfg t live rr d refs t',
+    tc_should_own cfg && negb (reffed_truthy rr) = true ->
+    updated_owner_refs_r live (tc_owner_ref cfg) = Done (OwnerRefs refs) ->
+    set_owner_refs t refs = Done t' ->
+    patch_branch cfg t live rr d =
+      match prepare_for_api t' with
+      | Done p => (TRetry d "spec.update.patch", [CPatch p])
+      | Raised e => (TRaised e, [])
+      end.
+  Proof. exact patch_branch_owner. Qed.
+
+  (* never more than the one call of the policy; any call => Retry(delay) *)
+  Theorem C05_one_call : forall cfg t live rr v r calls,
+    dispatch cfg t live rr v = (r, calls) ->
+    calls = [] \/ (exists p, calls = [CPatch p] /\ exists d, tc_update cfg = PPatch d) \/
+    (calls = [CDelete] /\ exists d, tc_update cfg = PRecreate d).
+  Proof. exact dispatch_calls. Qed.
+
+  Theorem C05_mutation_is_retry : forall cfg t live rr v r calls,
+    dispatch cfg t live rr v = (r, calls) -> calls <> [] ->
+    exists d loc, r = TRetry d loc /\ (tc_update cfg = PPatch d \/ tc_update cfg = PRecreate d).
+  Proof. exact dispatch_mutation_is_retry. Qed.
+
+  (* the two halves together, on the whole tail (owner check, last-applied
+     extraction, comparison, dispatch): the live object matched, then deviates
+     at a specified path (its last-applied annotation still reads the same
+     document) => exactly the policy's action *)
+  Theorem C05_drift_corrected : forall cfg t l l' p ann ann' rr' la,
+    wf t = true ->
+    extract_last_applied_r l ann = Done la -> vmatch t l la false = O_match ->
+    deviates t false p l l' ->
+    extract_last_applied_r l' ann' = Done la ->
+    (if tc_should_own cfg then validate_owner_reffed_r l' (tc_owner_ref cfg) else Done (Reffed true)) = Done rr' ->
+    tail cfg t l' ann' =
+      Some (match tc_update cfg with
+            | PNever => (TLive l', [])
+            | PRecreate d => (TRetry d "spec.update.recreate", [CDelete])
+            | PPatch d => patch_branch cfg t l' rr' d
+            end).
+  Proof.
+    intros. eapply (drift_corrected_thm cfg t l l' p ann ann' rr' rr' la); eauto.
+  Qed.
+End Dispatch.
+
+(* "After a patch the object meets the target again": whatever the live object
+   l was, once the API server has applied the PATCH body by RFC 7386 the result
+   matches the target (with the last-applied document the patch recorded).
+   Hypotheses: [good t] (unique keys, readable directives, set-directed lists
+   hold scalars, compare-as-map lists hold maps with scalar key fields),
+   no explicit nulls (a null in a merge-patch deletes the key), the target does
+   not itself specify the last-applied annotation.  t' is the target as sent:
+   t, or t with the owner references added. *)
+Theorem C05_patch_restores : forall t t' p l,
+  good t = true -> no_nulls t = true -> ann_free t = true ->
+  (t' = t \/ exists refs, set_owner_refs t refs = Done t') ->
+  prepare_for_api t' = Done p ->
+  vmatch t (merge_patch l (body p)) (Some (recorded p)) false = O_match.
+Proof. exact patch_reaches_target_thm. Qed.
+
+(* ---- non-vacuity ---------------------------------------------------------- *)
+
+Definition ex_target : json :=
+  JMap [("metadata", JMap [("name", JStr "w"); ("labels", JMap [("app", JStr "x")])]);
+        ("spec", JMap [(K_SET, JList [JStr "tags"]);
+                       (K_MAP, JMap [("ports", JList [JStr "name"])]);
+                       (K_LA, JList [JStr "secret"]);
+                       ("replicas", JInt 0);
+                       ("tags", JList [JStr "a"; JInt 2]);
+                       ("ports", JList [JMap [("name", JStr "http"); ("port", JInt 80)];
+                                        JMap [("name", JStr "admin"); ("port", JInt 81)]]);
+                       ("secret", JStr "s3");
+                       ("args", JList [JStr "x"; JBool false])])].
+
+(* a server-decorated live object: extra keys, reordered set / keyed lists, an extra element *)
+Definition ex_live : json :=
+  JMap [("status", JMap [("ready", JBool true)]);
+        ("metadata", JMap [("uid", JStr "u"); ("labels", JMap [("app", JStr "x"); ("z", JStr "y")]);
+                           ("name", JStr "w")]);
+        ("spec", JMap [("tags", JList [JInt 2; JStr "a"]);
+                       ("ports", JList [JMap [("name", JStr "extra")];
+                                        JMap [("name", JStr "admin"); ("port", JInt 81); ("proto", JStr "TCP")];
+                                        JMap [("name", JStr "http"); ("port", JInt 80)]]);
+                       ("secret", JStr "rotated-by-someone");
+                       ("replicas", JInt 0);
+                       ("args", JList [JStr "x"; JBool false])])].
+
+Definition ex_la : json := strip ex_target.
+
+(* the falsy leaf spec.replicas = 0 turned null *)
+Definition ex_live_dev : json :=
+  JMap [("status", JMap [("ready", JBool true)]);
+        ("metadata", JMap [("uid", JStr "u"); ("labels", JMap [("app", JStr "x"); ("z", JStr "y")]);
+                           ("name", JStr "w")]);
+        ("spec", JMap [("tags", JList [JInt 2; JStr "a"]);
+                       ("ports", JList [JMap [("name", JStr "extra")];
+                                        JMap [("name", JStr "admin"); ("port", JInt 81); ("proto", JStr "TCP")];
+                                        JMap [("name", JStr "http"); ("port", JInt 80)]]);
+                       ("secret", JStr "rotated-by-someone");
+                       ("replicas", JNull);
+                       ("args", JList [JStr "x"; JBool false])])].
+
+Example C05_nonvacuous :
+  wf ex_target = true /\ good ex_target = true /\ no_nulls ex_target = true /\ ann_free ex_target = true /\
+  vmatch ex_target ex_live (Some ex_la) false = O_match /\
+  deviates ex_target false [SKey "spec"; SKey "replicas"] ex_live ex_live_dev /\
+  vmatch ex_target ex_live_dev (Some ex_la) false = O_false /\
+  (exists p, prepare_for_api ex_target = Done p /\
+     vmatch ex_target (merge_patch ex_live_dev (body p)) (Some (recorded p)) false = O_match).
+Proof.
+  repeat split; try (vm_compute; reflexivity).
+  - eapply (dev_key _ _ _ "spec" _ _ _ _ [] [] []); try (vm_compute; reflexivity).
+    eapply (dev_key _ _ _ "replicas" (JInt 0) (JInt 0) JNull []); try (vm_compute; reflexivity).
+    apply dev_leaf; reflexivity.
+  - eexists. split; [vm_compute; reflexivity|]. vm_compute. reflexivity.
+Qed.
+
+Print Assumptions C05_drift_detected.
+Print Assumptions C05_drift_detected_fuel.
+Print Assumptions C05_deviation_at_specified_path.
+Print Assumptions C05_set_member_retype_refuted.
+Print Assumptions C05_as_map_retype_refuted.
+Print Assumptions C05_dispatch.
+Print Assumptions C05_patch_payload.
+Print Assumptions C05_patch_payload_owner.
+Print Assumptions C05_one_call.
+Print Assumptions C05_mutation_is_retry.
+Print Assumptions C05_drift_corrected.
+Print Assumptions C05_patch_restores.
